@@ -839,6 +839,11 @@ class Pile(Widget, WidgetContainerMixin, WidgetContainerListContentsMixin):
         focus: bool = False,
     ) -> SolidCanvas | CompositeCanvas:
         _widths, heights, size_args = self.get_rows_sizes(size, focus)
+        # a PACK item that reports no rows is not rendered, but it still took part in the layout (its own
+        # row count decided that): the canvas then depends on every item widget, not only the rendered ones
+        hidden_pack = any(
+            height <= 0 and options[0] == WHSettings.PACK for height, (_, options) in zip(heights, self.contents)
+        )
 
         combinelist = []
         for i, (height, w_size, (w, _)) in enumerate(zip(heights, size_args, self.contents)):
@@ -851,13 +856,19 @@ class Pile(Widget, WidgetContainerMixin, WidgetContainerListContentsMixin):
                 combinelist.append((canv, i, item_focus))
 
         if not combinelist:
-            return SolidCanvas(" ", size[0], (size[1:] + (0,))[0])
+            out = SolidCanvas(" ", size[0], (size[1:] + (0,))[0])
+            if hidden_pack:
+                out = CompositeCanvas(out)
+                out.set_depends([w for w, _ in self.contents])
+            return out
 
         out = CanvasCombine(combinelist)
         if len(size) == 2 and size[1] != out.rows():
             # flow/fixed widgets rendered too large/small
             out = CompositeCanvas(out)
             out.pad_trim_top_bottom(0, size[1] - out.rows())
+        if hidden_pack:
+            out.set_depends([w for w, _ in self.contents])
         return out
 
     def get_cursor_coords(self, size: tuple[()] | tuple[int] | tuple[int, int]) -> tuple[int, int] | None:
